@@ -446,7 +446,9 @@ func TestLimitRandom(t *testing.T) {
 				cnt := 0
 				if s.grad != nil && cfg.ProbeMax > 0 {
 					// the library draws the probe countdown from an unseeded source: place a probe early in this run
-					s.grad.VerifSetResetCounter(r.between(2, 4))
+					if c := r.between(2, 4); s.grad.VerifResetCounter() > c { // only ever sooner: the recurrence bound is the library's own
+						s.grad.VerifSetResetCounter(c)
+					}
 				}
 				if s.vegas != nil && r.chance(1, 2) {
 					s.vegas.VerifSetProbeJitter(1e-9) // the next sample - a drop - is a probe
